@@ -592,6 +592,8 @@ def c07(tier):
 def c08(tier):
     v = Verdict("C08", tier)
     model_step(v, tiered("intended/C08.cfg", tier), need=("CreateTmp", "RenameTmp", "Drain", "FlushTmp", "Exit"))
+    for kind in ("nocreate", "norename"):
+        model_step(v, tiered("intended/C08env_%s.cfg" % kind, tier), need=("CreateTmp", "Exit"))
     expect_counterexample(v, "asfound/C08ignored.cfg", ("FailureMeansNonZero", "ExitZeroDone"))
     binary = common.build_breadlog()
     batch = rl.Batch()
